@@ -8,7 +8,7 @@ from fractions import Fraction
 from ..gen.ledger import Opts, gen_ledger, render_dsl
 from ..model import hmrc, fx as fxm
 from ..probe import probe
-from ..util import rng_for, sha, fr, d as pdate, tax_year_of, ZERO, TOL_10DP, TOL_FINE, dstr, round_half_away
+from ..util import cap_viols, rng_for, sha, fr, d as pdate, tax_year_of, ZERO, TOL_10DP, TOL_FINE, dstr, round_half_away
 from . import ledger_core as lc
 
 PROP = "C04"
@@ -187,7 +187,7 @@ def run_lib(desc):
                             "years_seen": [(y["period"], y["total_gain"], y["total_loss"], y["exempt_amount"], y["taxable_gain"])
                                            for y in o["ok"]["report"]["tax_years"]]})
     return {"evaluations": len(cases), "nontrivial_hashes": hashes, "counters": cnt,
-            "violations": viols[:20], "samples": samples}
+            "violations": cap_viols(viols), "samples": samples}
 
 
 EMBEDDED = {2014: 11000, 2015: 11100, 2016: 11100, 2017: 11300, 2018: 11700, 2019: 12000, 2020: 12300,
@@ -294,7 +294,7 @@ def run_cli(desc):
             samples.append({"cli": "report in.cgt --format json", "cwd_config": cw, "home_config": hm,
                             "years": [(y["period"], y["exempt_amount"]) for y in rep["tax_years"]]})
     return {"evaluations": cnt["cli_runs"], "nontrivial_hashes": hashes, "counters": cnt,
-            "violations": viols[:20], "samples": samples}
+            "violations": cap_viols(viols), "samples": samples}
 
 
 def run_shard(desc):
